@@ -1208,6 +1208,33 @@ func c10R1(r *Run, ro *c10Roles) {
 			roots = append(roots, f)
 		}
 	}
+	// … and every other method of the artefact types (UsedVars, Disassemble, …): after the build,
+	// whatever a caller may invoke on a compiled Program / Template must leave it unchanged, since it may
+	// run before, between or during runs (added after seeded change C10-8)
+	seenRecv := map[*types.Named]bool{}
+	for _, fi := range api {
+		sig := fi.Obj.Type().(*types.Signature)
+		if sig.Recv() == nil {
+			continue
+		}
+		rt := sig.Recv().Type()
+		if p, ok := rt.(*types.Pointer); ok {
+			rt = p.Elem()
+		}
+		n, ok := rt.(*types.Named)
+		if !ok || seenRecv[n] {
+			continue
+		}
+		seenRecv[n] = true
+		for _, t := range []types.Type{n, types.NewPointer(n)} {
+			ms := tr.prog.MethodSets.MethodSet(t)
+			for i := 0; i < ms.Len(); i++ {
+				if f := tr.prog.MethodValue(ms.At(i)); f != nil && inModule(f) && f.Object() != nil && f.Object().Exported() {
+					roots = append(roots, f)
+				}
+			}
+		}
+	}
 	if !r.Anchor(R, "root functions in SSA", len(roots) >= 2) {
 		return
 	}
